@@ -485,6 +485,10 @@ class Norm:
             args = [self._t(a) for a in e["args"]]
             if name in TRANSPARENT and not args:
                 return recv
+            if name == "bool::then" and len(args) == 1 and args[0][0] == "closure" and args[0][2] == 0:
+                return ("call", "then", [recv, args[0][3]])      # c.then(|| x)  ==  if c {Some(x)} else {None}
+            if name == "bool::then_some" and len(args) == 1:
+                return ("call", "then", [recv, args[0]])
             if name.endswith("::expect") and len(args) == 1 and args[0][0] == "lit":
                 args = []   # the message text is not part of the term
             return ("call", name, [recv] + args)
@@ -566,6 +570,8 @@ class Norm:
             el = self._t(e["else"]) if "else" in e else ("lit", "()")
             if _diverges(t) and _is_unit(el):
                 return ("early", [(c, t)], ("lit", "()"))
+            if t[0] == "call" and t[1] == "Some" and len(t[2]) == 1 and el == ("def", "v1::None"):
+                return ("call", "then", [c, t[2][0]])
             return ("if", c, t, el)
         if k == "Let":
             return ("iflet", pat_repr(e["pat"]), self._t(e["init"]))
